@@ -144,6 +144,7 @@ func (rg *rootGeneratorPipeline) worker(ctx context.Context, wg *sync.WaitGroup,
 			if !ok {
 				return
 			}
+			verifPoint("gen.recv")
 
 			var (
 				sc      = bufio.NewScanner(strings.NewReader(block))
@@ -154,6 +155,7 @@ func (rg *rootGeneratorPipeline) worker(ctx context.Context, wg *sync.WaitGroup,
 			for sc.Scan() {
 				currentNode, err := rg.nodeGenerator.generate(sc.Text(), counter.next())
 				if err != nil {
+					verifPoint("gen.err")
 					errc <- err
 					return
 				}
@@ -178,6 +180,7 @@ func (rg *rootGeneratorPipeline) worker(ctx context.Context, wg *sync.WaitGroup,
 				errc <- err
 				return
 			}
+			verifPoint("gen.send")
 			select {
 			case <-ctx.Done():
 				return
